@@ -42,4 +42,83 @@ def sealOpen (rpk rsk ct : Bytes) : Option Bytes :=
     let epk := ct.take 32
     boxOpen epk rsk (sealNonce epk rpk) (ct.drop 32)
 
+/-! ### libsodium's refusal of the all-zero shared secret (finding F17 of property C05)
+
+`beforenm` / `box` / `boxOpen` / `boxSeal` / `sealOpen` above are the NaCl CONSTRUCTION (the formulas of the
+NaCl paper): total functions, defined for every public key.  libsodium's `crypto_box_beforenm` additionally
+returns −1 when the X25519 output is all-zero (a small-order public key), and so `crypto_box_easy`,
+`_detached`, `_open_easy`, `_open_detached`, `crypto_box_seal`, `crypto_box_seal_open` all fail for such a key.
+dryoc's `crypto_box_curve25519xsalsa20poly1305_beforenm` is infallible.  The `…Sodium` functions below are
+libsodium's behaviour; they agree with the construction exactly when the shared secret is not all-zero
+(`beforenmSodium_eq` and its corollaries). -/
+
+/-- libsodium's `crypto_box_beforenm`: `none` (return value −1) when the X25519 shared secret is all-zero -/
+def beforenmSodium (pk sk : Bytes) : Option Bytes :=
+  let s := X25519.x25519 sk pk
+  if s = zeros 32 then none else some (Salsa20.hsalsa20 s (zeros 16))
+
+/-- libsodium's `crypto_box_easy` -/
+def boxSodium (pk sk n m : Bytes) : Option Bytes := (beforenmSodium pk sk).map fun k => secretbox k n m
+
+/-- libsodium's `crypto_box_open_easy` -/
+def boxOpenSodium (pk sk n ct : Bytes) : Option Bytes := (beforenmSodium pk sk).bind fun k => secretboxOpen k n ct
+
+/-- libsodium's `crypto_box_seal` with ephemeral secret `esk` -/
+def boxSealSodium (rpk esk m : Bytes) : Option Bytes :=
+  let epk := X25519.x25519Base esk
+  (boxSodium rpk esk (sealNonce epk rpk) m).map fun b => epk ++ b
+
+/-- libsodium's `crypto_box_seal_open` -/
+def sealOpenSodium (rpk rsk ct : Bytes) : Option Bytes :=
+  if ct.length < 48 then none
+  else
+    let epk := ct.take 32
+    boxOpenSodium epk rsk (sealNonce epk rpk) (ct.drop 32)
+
+/-- whenever the shared secret is not all-zero, libsodium's `crypto_box_beforenm` is the NaCl construction -/
+theorem beforenmSodium_eq (pk sk : Bytes) (h : X25519.x25519 sk pk ≠ zeros 32) :
+    beforenmSodium pk sk = some (beforenm pk sk) := by
+  unfold beforenmSodium beforenm
+  simp only []
+  rw [if_neg h]
+
+/-- … and it refuses exactly the all-zero shared secret -/
+theorem beforenmSodium_none_iff (pk sk : Bytes) :
+    beforenmSodium pk sk = none ↔ X25519.x25519 sk pk = zeros 32 := by
+  unfold beforenmSodium
+  simp only []
+  constructor
+  · intro h
+    apply Classical.byContradiction
+    intro hn
+    rw [if_neg hn] at h
+    cases h
+  · intro h
+    rw [if_pos h]
+
+theorem boxSodium_eq (pk sk n m : Bytes) (h : X25519.x25519 sk pk ≠ zeros 32) :
+    boxSodium pk sk n m = some (box pk sk n m) := by
+  unfold boxSodium box
+  rw [beforenmSodium_eq pk sk h]
+  rfl
+
+theorem boxOpenSodium_eq (pk sk n ct : Bytes) (h : X25519.x25519 sk pk ≠ zeros 32) :
+    boxOpenSodium pk sk n ct = boxOpen pk sk n ct := by
+  unfold boxOpenSodium boxOpen
+  rw [beforenmSodium_eq pk sk h]
+  rfl
+
+theorem boxSealSodium_eq (rpk esk m : Bytes) (h : X25519.x25519 esk rpk ≠ zeros 32) :
+    boxSealSodium rpk esk m = some (boxSeal rpk esk m) := by
+  unfold boxSealSodium boxSeal
+  simp only []
+  rw [boxSodium_eq rpk esk _ m h]
+  rfl
+
+theorem sealOpenSodium_eq (rpk rsk ct : Bytes) (h : X25519.x25519 rsk (ct.take 32) ≠ zeros 32) :
+    sealOpenSodium rpk rsk ct = sealOpen rpk rsk ct := by
+  unfold sealOpenSodium sealOpen
+  simp only []
+  rw [boxOpenSodium_eq (ct.take 32) rsk _ _ h]
+
 end DryocVerif.Spec.NaCl
